@@ -311,7 +311,11 @@ def handler : Handler := fun op j =>
     -- the default arguments recorded in `Scico.ProxTables.expectedDefaults` (checked against the source by the generated obligations):
     -- the band literal of `_dep_cubic_root`, `tol`/`maxiter` of the CG path, constructor defaults
     some (ok (jObj [("defaults", jArr (Scico.ProxTables.expectedDefaults.map fun r => jArr [jS r.1, jS r.2.1, jS r.2.2])),
-      ("covered", jArr (Scico.ProxTables.covered.map jS))]))
+      ("covered", jArr (Scico.ProxTables.covered.map jS)),
+      ("flags", jArr (Scico.ProxTables.expectedFlags.map fun r => jArr [jS r.1, jS r.2.1, jS r.2.2.1, jS r.2.2.2.1, jS r.2.2.2.2])),
+      ("dispatch", jArr (Scico.ProxTables.expectedDispatch.map fun r => jArr [jS r.1, jS r.2.1, jArr (r.2.2.map jS)])),
+      ("bases", jArr (Scico.ProxTables.expectedBases.map fun r => jArr [jS r.1, jS r.2])),
+      ("relevant", jArr (Scico.ProxTables.relevantCallables.map jS))]))
   | "param_after" => do
     let p0 ← fFloat? j "p0"; let l ← fFloats? j "assigns"
     some (ok (jObj [("p", jF (paramAfter p0 l))]))
